@@ -353,6 +353,16 @@ def workload(ctx, repo):
                     case = {"op": "iterate", "desc": desc}
                     ctx.case = case
                     run_case(ctx, repo, case)
+    j = 0
+    for mode in R.MODES:
+        stride = 4 if ctx.tier == "quick" else 1
+        for desc in recgen.clamp_descs(mode):
+            j += 1
+            if (j + ctx.seed) % stride or not ctx.mine(j // stride):
+                continue
+            case = {"op": "iterate", "desc": desc}
+            ctx.case = case
+            run_case(ctx, repo, case)
     for k in range(n):
         mode = R.MODES[k % 4] if k % 2 else "gregorian"
         if k % 8 == 0:
